@@ -1,5 +1,6 @@
 use anyhow::Result;
 use futures::{channel::mpsc, SinkExt};
+use selium_protocol::Frame;
 
 pub mod pubsub;
 pub mod reqrep;
@@ -40,6 +41,15 @@ impl<T, E> Clone for Sender<T, E> {
 }
 
 impl<T, E> Sender<T, E> {
+    /// Whether a stream that registered with `frame` can be served by this topic
+    pub fn accepts(&self, frame: &Frame) -> bool {
+        match (self, frame) {
+            (Self::Pubsub(_), Frame::RegisterPublisher(_) | Frame::RegisterSubscriber(_)) => true,
+            (Self::ReqRep(_), Frame::RegisterReplier(_) | Frame::RegisterRequestor(_)) => true,
+            _ => false,
+        }
+    }
+
     pub async fn send(&mut self, sock: Socket<T, E>) -> Result<()> {
         match self {
             Self::Pubsub(ref mut s) => s.send(sock.unwrap_pubsub()).await?,
